@@ -401,3 +401,5 @@ func (s StrV) concrete() (string, bool) {
 	}
 	return string(bs), true
 }
+
+type syncMapEntry struct{ k, v Value }
